@@ -883,7 +883,130 @@ func (e *Exec) execBlock(st *State, stmts []ast.Stmt) []Outcome {
 
 func one(st *State) []Outcome { return []Outcome{{st: st, ctl: ctlNext}} }
 
+// execStmt executes one statement. Calls of contract-less module functions nested inside the statement's
+// expressions are executed in place first (they may fork), in evaluation order; their values are then picked up
+// by evalCall through State.pre.
 func (e *Exec) execStmt(st *State, s ast.Stmt) []Outcome {
+	hoisted := e.nestedInlineCalls(st, s)
+	if len(hoisted) == 0 {
+		return e.execStmt1(st, s)
+	}
+	cur := []*State{st}
+	for _, call := range hoisted {
+		var next []*State
+		for _, c := range cur {
+			inl := e.inlineTarget(c, call)
+			if inl == nil {
+				next = append(next, c)
+				continue
+			}
+			for _, r := range e.inlineCall(c, call, inl) {
+				if r.st.pre == nil {
+					r.st.pre = map[*ast.CallExpr]Value{}
+				}
+				r.st.pre[call] = r.v
+				next = append(next, r.st)
+			}
+		}
+		cur = next
+	}
+	var outs []Outcome
+	for _, c := range cur {
+		for _, o := range e.execStmt1(c, s) {
+			for _, call := range hoisted {
+				delete(o.st.pre, call)
+			}
+			outs = append(outs, o)
+		}
+	}
+	return outs
+}
+
+// nestedInlineCalls lists, innermost first, the calls executed in place that sit strictly inside the expressions
+// of a simple statement (not under && / || right operands or function literals, whose evaluation is conditional).
+func (e *Exec) nestedInlineCalls(st *State, s ast.Stmt) []*ast.CallExpr {
+	var tops []ast.Expr
+	switch x := s.(type) {
+	case *ast.ExprStmt:
+		tops = []ast.Expr{x.X}
+	case *ast.AssignStmt:
+		tops = append(tops, x.Rhs...)
+		for _, l := range x.Lhs {
+			if _, isId := ast.Unparen(l).(*ast.Ident); !isId {
+				tops = append(tops, l)
+			}
+		}
+	case *ast.ReturnStmt:
+		tops = x.Results
+	case *ast.DeclStmt:
+		if gd, ok := x.Decl.(*ast.GenDecl); ok && gd.Tok == token.VAR {
+			for _, sp := range gd.Specs {
+				if vs, ok := sp.(*ast.ValueSpec); ok {
+					tops = append(tops, vs.Values...)
+				}
+			}
+		}
+	default:
+		return nil
+	}
+	var out []*ast.CallExpr
+	var walk func(n ast.Expr, top bool)
+	walk = func(n ast.Expr, top bool) {
+		switch y := n.(type) {
+		case nil:
+		case *ast.ParenExpr:
+			walk(y.X, top)
+		case *ast.CallExpr:
+			walk(y.Fun, false)
+			for _, a := range y.Args {
+				walk(a, false)
+			}
+			if !top {
+				if tv, ok := e.info().Types[y.Fun]; ok && tv.IsType() {
+					return
+				}
+				if e.inlineTarget(st, y) != nil {
+					out = append(out, y)
+				}
+			}
+		case *ast.SelectorExpr:
+			walk(y.X, false)
+		case *ast.StarExpr:
+			walk(y.X, false)
+		case *ast.UnaryExpr:
+			walk(y.X, false)
+		case *ast.BinaryExpr:
+			walk(y.X, false)
+			if y.Op != token.LAND && y.Op != token.LOR {
+				walk(y.Y, false)
+			}
+		case *ast.IndexExpr:
+			walk(y.X, false)
+			walk(y.Index, false)
+		case *ast.SliceExpr:
+			walk(y.X, false)
+			walk(y.Low, false)
+			walk(y.High, false)
+			walk(y.Max, false)
+		case *ast.TypeAssertExpr:
+			walk(y.X, false)
+		case *ast.CompositeLit:
+			for _, el := range y.Elts {
+				if kv, ok := el.(*ast.KeyValueExpr); ok {
+					walk(kv.Value, false)
+				} else {
+					walk(el, false)
+				}
+			}
+		}
+	}
+	for _, t := range tops {
+		walk(t, true)
+	}
+	return out
+}
+
+func (e *Exec) execStmt1(st *State, s ast.Stmt) []Outcome {
 	switch x := s.(type) {
 	case *ast.BlockStmt:
 		return e.execBlock(st, x.List)
@@ -1024,6 +1147,9 @@ type stVal struct {
 // evalForking evaluates an expression that may be a call to an inlined function (which forks).
 func (e *Exec) evalForking(st *State, x ast.Expr) []stVal {
 	if call, ok := ast.Unparen(x).(*ast.CallExpr); ok {
+		if v, ok := st.pre[call]; ok {
+			return []stVal{{st, v}}
+		}
 		if inl := e.inlineTarget(st, call); inl != nil {
 			return e.inlineCall(st, call, inl)
 		}
